@@ -1,19 +1,28 @@
 import FormulaicVerif.Engines.Json
 import FormulaicVerif.Model.Nulls
 import FormulaicVerif.Model.NullsHistory
-/-! Engine `c06`: runs `Model.Nulls.call` on one call record, or (`"op": "history"`)
-`Model.NullsHist.runHistory` on a list of calls made on ONE materializer object.
+/-! Engine `c06`: runs `Model.Nulls.callNA` on one call record, (`"op": "history"`)
+`Model.NullsHist.runHistory` on a list of calls made on ONE materializer object, or (`"op":
+"find_nulls"` / `"drop_rows"`) the value-level functions `Model.Nulls.findNulls` / `dropRowsV`.
 
-request  {"variant": "current" | "legacy" (default current), "n": rows, "labels": [str…],
-          "policy": "drop"|"raise"|"ignore", "output": "pandas"|"numpy"|"sparse"|"narwhals",
+value V  {"t": "none" | "other"}
+         {"t": "scalar", "k": "num"|"str"|"np", "null": bool}      {"t": "array0", "null": bool}
+         {"t": "list"|"nw"|"series"|"array1", "len": k, "nulls": [pos…]}
+         {"t": "array2"|"frame", "n": rows, "cols": [[null pos…]…]}  {"t": "arrayN", "n": rows}
+         {"t": "sparse", "csc": bool, "n": rows, "cols": [[null pos…]…]}
+         {"t": "dict", "items": [{"hidden": bool, "v": V}…]}
+The content of cell `i` of every column is the number `i`, so a surviving column lists the
+positions that were kept.
+
+request  {"variant": "current" | "legacy" | "beforeValues" (default current), "n": rows, "labels": [str…],
+          "policy": "drop"|"raise"|"ignore"  (an NAAction member)  or  "na_text": any string,
+          "output": "pandas"|"numpy"|"sparse"|"narwhals",
           "entry": "sugar"|"formula"|"modelspec"|"modelspecs"|"materializer",
           "structured": bool, "overrides": bool, "joint": bool, "caller": [nat…] | null,
-          "parts": [{"mat": "pandas"|"narwhals", "intercept": bool,
-                     "factors": [{"nulls": [nat…], "store": "series"|"ndarray"|"nw"|"list",
-                                  "enc": "default"|"C"|"hashed"}…]}…]}
-The cells of every factor are the row positions `0 … n-1`, so a surviving column lists the
-positions that were kept.
-answer   {"error": kind} | {"parts": [{"nrows", "intercept": k|null, "cols": [[pos…]…],
+          "parts": [{"mat": "pandas"|"narwhals"|"arrow", "intercept": bool,
+                     "factors": [{"value": V, "enc": "default"|"C"|"hashed"|"constant"}…]}…]}
+answer   {"error": kind} | {"parts": [{"nrows", "intercept": k|null,
+                                        "cols": [[[pos…] per column] per factor],
                                         "index": [str…] | {"range": k} | null}…],
                             "final": [nat…] (sorted) | null}
 
@@ -21,7 +30,12 @@ history  {"op": "history", "variant", "reset": bool (default true: the caches ar
           start of a call), "n", "labels",
           "calls": [{"policy", "output", "caller", "parts": [… as above, every factor with its
                      cache key "key": expr …]}…]}
-answer   {"calls": [one answer as above per call, in order]} -/
+answer   {"calls": [one answer as above per call, in order]}
+
+find_nulls {"op": "find_nulls", "variant", "value": V}
+answer     {"nulls": [pos…] (sorted)} | {"error": kind}
+drop_rows  {"op": "drop_rows", "variant", "labels": [str…], "value": V, "indices": [nat…]}
+answer     {"t": …, "n": rows | null, "cols": [[pos…]…]} | {"error": kind} -/
 namespace FormulaicVerif.Engines.C06
 open Lean FormulaicVerif.Engines FormulaicVerif.Model.Nulls FormulaicVerif.Model.NullsHist
 
@@ -41,15 +55,10 @@ def matOf : String → Mat
   | "arrow" => .arrow
   | _ => .pandas
 
-def storeOf : String → Store
-  | "ndarray" => .ndarray
-  | "nw" => .nwSeries
-  | "list" => .pylist
-  | _ => .series
-
 def encOf : String → Encoder
   | "C" => .contrastsC
   | "hashed" => .hashed
+  | "constant" => .constant
   | _ => .default
 
 def entryOf : String → Entry
@@ -61,17 +70,56 @@ def entryOf : String → Entry
 
 def nats (j : Json) (k : String) : List Nat := (jarr j k).map asNat
 
-def factorOf (n : Nat) (j : Json) : Factor Nat :=
-  ⟨List.range n, nats j "nulls", storeOf (jstr j "store"), encOf (jstr j "enc")⟩
+/-- a column of `k` cells holding `0 … k-1`, null at the listed positions -/
+def cellsOfJ (k : Nat) (nulls : List Nat) : List (Cell Nat) :=
+  (List.range k).map (fun i => ⟨i, nulls.contains i⟩)
 
-def partOf (n : Nat) (j : Json) : Part Nat :=
-  ⟨matOf (jstr j "mat"), jbool j "intercept", (jarr j "factors").map (factorOf n)⟩
+def tableOf (j : Json) : Nat × List (List (Cell Nat)) :=
+  let n := jnat j "n"
+  (n, (jarr j "cols").map (fun c => cellsOfJ n ((asArr c).map asNat)))
+
+def scalarKindOf : String → ScalarKind
+  | "str" => .pyStr
+  | "np" => .npNum
+  | _ => .pyNum
+
+/-- decoding of a value; nesting deeper than the fuel decodes as an unknown object -/
+def valueOfFuel : Nat → Json → Value Nat
+  | 0, _ => .other
+  | fuel + 1, j =>
+  match jstr j "t" with
+  | "none" => .none
+  | "scalar" => .scalar (scalarKindOf (jstr j "k")) ⟨0, jbool j "null"⟩
+  | "list" => .pylist (cellsOfJ (jnat j "len") (nats j "nulls"))
+  | "nw" => .nwSeries (cellsOfJ (jnat j "len") (nats j "nulls"))
+  | "series" => .series (cellsOfJ (jnat j "len") (nats j "nulls"))
+  | "array0" => .array0 ⟨0, jbool j "null"⟩
+  | "array1" => .array1 (cellsOfJ (jnat j "len") (nats j "nulls"))
+  | "array2" => .array2 (tableOf j).1 (tableOf j).2
+  | "arrayN" => .arrayN (jnat j "n")
+  | "frame" => .frame (tableOf j).1 (tableOf j).2
+  | "sparse" => .sparse (jbool j "csc") (tableOf j).1 (tableOf j).2
+  | "dict" => .dict ((jarr j "items").map (fun it => (jbool it "hidden", valueOfFuel fuel (jval it "v"))))
+  | _ => .other
+
+def valueOf (j : Json) : Value Nat := valueOfFuel 32 j
+
+def factorOf (j : Json) : Factor Nat := ⟨valueOf (jval j "value"), encOf (jstr j "enc")⟩
+
+def partOf (j : Json) : Part Nat :=
+  ⟨matOf (jstr j "mat"), jbool j "intercept", (jarr j "factors").map factorOf⟩
 
 def errStr : Err → String
   | .nullsPresent => "NullsPresent"
   | .indexError => "IndexError"
   | .lengthMismatch => "LengthMismatch"
   | .negativeDimensions => "LengthMismatch"
+  | .constantNull => "ConstantNull"
+  | .tooManyDims => "TooManyDims"
+  | .noFindNulls => "NoFindNulls"
+  | .noDropRows => "NoDropRows"
+  | .notColumns => "NotColumns"
+  | .invalidNAAction => "InvalidNAAction"
 
 def jnats (xs : List Nat) : Json := jlist (xs.map (fun k => Json.num (JsonNumber.fromNat k)))
 
@@ -84,7 +132,7 @@ def matrixJ (m : Matrix String Nat) : Json :=
   Json.mkObj [
     ("nrows", Json.num (JsonNumber.fromNat m.nrows)),
     ("intercept", match m.intercept with | some k => Json.num (JsonNumber.fromNat k) | none => Json.null),
-    ("cols", jlist (m.cols.map jnats)),
+    ("cols", jlist (m.cols.map (fun f => jlist (f.map (fun c => jnats (c.map (·.val))))))),
     ("index", indexJ m.index)]
 
 def callerOf (j : Json) : Option DropSet :=
@@ -92,12 +140,12 @@ def callerOf (j : Json) : Option DropSet :=
   | .arr a => some (a.toList.map asNat).eraseDups
   | _ => none
 
-def kpartOf (n : Nat) (j : Json) : KPart Nat :=
+def kpartOf (j : Json) : KPart Nat :=
   ⟨matOf (jstr j "mat"), jbool j "intercept",
-   (jarr j "factors").map (fun f => ⟨jstr f "key", factorOf n f⟩)⟩
+   (jarr j "factors").map (fun f => ⟨jstr f "key", factorOf f⟩)⟩
 
-def hcallOf (n : Nat) (j : Json) : Call Nat :=
-  ⟨policyOf (jstr j "policy"), outputOf (jstr j "output"), (jarr j "parts").map (kpartOf n), callerOf j⟩
+def hcallOf (j : Json) : Call Nat :=
+  ⟨policyOf (jstr j "policy"), outputOf (jstr j "output"), (jarr j "parts").map kpartOf, callerOf j⟩
 
 def herrStr : HErr → String
   | .rows e => errStr e
@@ -108,28 +156,72 @@ def calloutJ (r : CallOut String Nat) : Json :=
     ("parts", jlist (r.mats.map matrixJ)),
     ("final", match r.callerAfter with | some s => jnats (sorted s) | none => Json.null)]
 
+def variantOf (j : Json) : Variant :=
+  match jstr j "variant" with
+  | "legacy" => legacy
+  | "beforeValues" => beforeValues
+  | _ => current
+
 def handleHistory (j : Json) : Json :=
-  let v := if jstr j "variant" == "legacy" then legacy else current
+  let v := variantOf j
   let n := jnat j "n"
   let reset := match jval j "reset" with | .bool b => b | _ => true
-  let calls := (jarr j "calls").map (hcallOf n)
+  let calls := (jarr j "calls").map hcallOf
   let rs := runHistory reset v (strs j "labels") n calls Caches.empty
   Json.mkObj [("calls", jlist (rs.map (fun r =>
     match r with
     | .error e => jerr (herrStr e)
     | .ok o => calloutJ o)))]
 
+def naOf (j : Json) : NAInput :=
+  match jval j "na_text" with
+  | .str s => .text s
+  | _ => .member (policyOf (jstr j "policy"))
+
 def handleCall (j : Json) : Json :=
-  let v := if jstr j "variant" == "legacy" then legacy else current
+  let v := variantOf j
   let n := jnat j "n"
   let caller : Option DropSet := callerOf j
   let c : CallRec := ⟨entryOf (jstr j "entry"), jbool j "structured", jbool j "overrides", jbool j "joint", caller⟩
-  let parts := (jarr j "parts").map (partOf n)
-  match call v (strs j "labels") n (policyOf (jstr j "policy")) (outputOf (jstr j "output")) parts c with
+  let parts := (jarr j "parts").map partOf
+  match callNA v (strs j "labels") n (naOf j) (outputOf (jstr j "output")) parts c with
   | .error e => jerr (errStr e)
   | .ok r => calloutJ r
 
+def handleFindNulls (j : Json) : Json :=
+  match findNulls (variantOf j) (valueOf (jval j "value")) with
+  | .error e => jerr (errStr e)
+  | .ok ns => Json.mkObj [("nulls", jnats (sorted ns.eraseDups))]
+
+def colsJ (cols : List (List (Cell Nat))) : Json := jlist (cols.map (fun c => jnats (c.map (·.val))))
+
+/-- what is left of a value: its type, `shape[0]` where it has one, the surviving cells per column -/
+def valueJ : Value Nat → Json
+  | .none => Json.mkObj [("t", "none")]
+  | .scalar _ _ => Json.mkObj [("t", "scalar")]
+  | .pylist c => Json.mkObj [("t", "list"), ("n", Json.null), ("cols", colsJ [c])]
+  | .nwSeries c => Json.mkObj [("t", "nw"), ("n", Json.null), ("cols", colsJ [c])]
+  | .series c => Json.mkObj [("t", "series"), ("n", Json.null), ("cols", colsJ [c])]
+  | .array0 _ => Json.mkObj [("t", "array0")]
+  | .array1 c => Json.mkObj [("t", "array1"), ("n", Json.null), ("cols", colsJ [c])]
+  | .array2 n cols => Json.mkObj [("t", "array2"), ("n", Json.num (JsonNumber.fromNat n)), ("cols", colsJ cols)]
+  | .arrayN n => Json.mkObj [("t", "arrayN"), ("n", Json.num (JsonNumber.fromNat n)), ("cols", colsJ [])]
+  | .frame n cols => Json.mkObj [("t", "frame"), ("n", Json.num (JsonNumber.fromNat n)), ("cols", colsJ cols)]
+  | .sparse csc n cols =>
+    Json.mkObj [("t", if csc then "csc" else "csr"), ("n", Json.num (JsonNumber.fromNat n)), ("cols", colsJ cols)]
+  | .dict _ => Json.mkObj [("t", "dict")]
+  | .other => Json.mkObj [("t", "other")]
+
+def handleDropRows (j : Json) : Json :=
+  match dropRowsV (variantOf j) (strs j "labels") (valueOf (jval j "value")) (nats j "indices") with
+  | .error e => jerr (errStr e)
+  | .ok x => valueJ x
+
 def handle (j : Json) : Json :=
-  if jstr j "op" == "history" then handleHistory j else handleCall j
+  match jstr j "op" with
+  | "history" => handleHistory j
+  | "find_nulls" => handleFindNulls j
+  | "drop_rows" => handleDropRows j
+  | _ => handleCall j
 
 end FormulaicVerif.Engines.C06
